@@ -147,21 +147,22 @@ CLAIMS = {
         text="Proved: in every reachable configuration the wait set holds exactly the waiters between prepare_wait and return, a waiter in it has no wake-up pending and a waiter removed by a notifier has exactly "
              "one, semaphore counts never go negative; a waiter that committed to sleep with nothing pending is still in the wait set and no notifier has finished; hence once every notifier (set condition, then "
              "notify_all) has finished, the condition is true and no waiter is blocked (no lost wake-up), including the skipped-wake-up path pumped by the next prepare_wait. Tie: the real monitor's "
-             "prepare_wait / commit_wait / cancel_wait / notify_all are called in scripted orders for 1-4 logical waiters and 1-3 notifiers; every observable event and the epoch are compared with the model.",
-        note="PARTIAL: the model is sequentially consistent at call granularity: fences, the monitor's mutex, binary_semaphore/futex, notify_one / predicate notifications, thread_control_monitor, "
-             "address_waiter (rw_mutex, mutex), the arena's worker wake-up and thread_request_serializer are not modelled; they are exercised by real-thread runs (monitor stress, enqueue into an arena "
+             "prepare_wait / commit_wait / cancel_wait / notify_all are called in scripted orders for 1-4 logical waiters and 1-3 notifiers; every observable event and the epoch are compared with the model. notify_one_relaxed(predicate) (used by tbb::mutex / rw_mutex address waiting): "
+             "proved that whenever a waiter in the set matches the predicate exactly one matching waiter is removed and woken; tied the same way (monitor-seq1) with waiters of several contexts.",
+        note="PARTIAL: the model is sequentially consistent at call granularity: fences, the monitor's mutex, binary_semaphore/futex, thread_control_monitor, "
+             "the address_waiter hash table (rw_mutex, mutex), the arena's worker wake-up and thread_request_serializer are not modelled; they are exercised by real-thread runs (monitor stress, enqueue into an arena "
              "nobody waits in, blocked bounded-queue operations under C09, late resume in a worker-less arena under C20). Liveness is stated as 'no waiter is blocked once notifiers are done'; fairness of the OS scheduler is assumed.",
         ref="4/C02"),
     "C01": dict(
         technique="Coq: access-level small-step model of the arena_slot deque; exhaustive exploration of finite configurations INSIDE Coq with a proved soundness lemma (a checked closed set contains every "
                   "reachable configuration); access-by-access differential tie against the real arena_slot under the gate; real-thread exactly-once oracles on the scheduler",
-        text="The model reproduces every atomic access (kind, memory order, values, CAS outcome) of spawn / get_task / steal_task on head, tail and the task_pool lock word; the real arena_slot (arena_slot.cpp "
-             "compiled under the atomic prelude) is run under seeded interleavings and compared event by event. Proved for five configurations (owner and thief racing for the last task, two and three tasks, "
-             "reset and re-publication of the pool, two thieves contending for the lock), for ALL their interleavings: no task is handed out twice, only spawned tasks are handed out, and at quiescence every "
+        text="The model reproduces every atomic access (kind, memory order, values, CAS outcome) of spawn / get_task (incl. isolation filtering, holes, re-publication) / steal_task on head, tail and the task_pool lock word; the real arena_slot (arena_slot.cpp "
+             "compiled under the atomic prelude) is run under seeded interleavings and compared event by event. Proved for seven configurations (owner and thief racing for the last task, two and three tasks, "
+             "reset and re-publication of the pool, two thieves contending for the lock, an isolated owner skipping foreign-tagged tasks with its own task last / leaving a hole), for ALL their interleavings: no task is handed out twice, only spawned tasks are handed out, and at quiescence every "
              "spawned task was handed out exactly once or is still in [head, tail). Real scheduler, 1-32 threads: task_group trees, arena enqueue/execute, affinity replay, isolation, cancellation, nested "
              "groups from external threads, task_handle: every unit exactly once (cancelled: at most once), waits cover transitive work.",
         note="PARTIAL: the exactly-once theorem is exhaustive per configuration, not for arbitrary scripts / thief counts (no general inductive proof). task_proxy/mailbox arbitration, task_stream, the "
-             "reference-counting wait tree, isolation, critical tasks and pool relocation are not modelled (real-thread oracles only). 'The waiter sees all writes' is checked by reading counters after the wait, "
+             "reference-counting wait tree, critical tasks and pool relocation are not modelled (real-thread oracles only). 'The waiter sees all writes' is checked by reading counters after the wait, "
              "not proved (memory model not formalised).",
         ref="4/C01"),
     "C03": dict(
@@ -170,7 +171,7 @@ CLAIMS = {
         text="Proved: when the waiting call leaves its wait with result r, every task of the group has finished or was skipped; r names a task that really ran and threw; r <> 0 whenever some body threw "
              "(nothing is swallowed); while the wait is pending at most one exception is captured (one winner of the cancellation exchange, my_exception written once); after the reset the group is not "
              "cancelled, holds no exception and has no outstanding reference. Oracle runs (task_group, parallel_for/reduce/for_each/invoke, pipeline, flow graph, task_arena::execute, nested): exactly one "
-             "exception reaches the caller iff a body threw, it is one that was thrown, no body is running then and none starts afterwards, functor copies are destroyed once, the object is reusable.",
+             "exception reaches the caller iff a body threw, it is one that was thrown, no body is running then and none starts afterwards, functor copies are destroyed once, every exception object constructed is destroyed (throwers rendezvous so several catch blocks race), the object is reusable.",
         note="PARTIAL: the correspondence between model and code is outcome-level only (the dispatch loop cannot be driven step by step without the scheduler); context trees are covered by C04; "
              "exception_ptr allocation, the algorithm-specific cancellation paths, flow-graph/pipeline internals and destruction of the library's own task objects are covered by the oracle runs only.",
         ref="4/C03"),
@@ -184,8 +185,8 @@ CLAIMS = {
         ref="4/C20"),
     "C19": dict(
         technique="Coq: executable small-step model of the once-flag word protocol; exhaustive exploration of ALL interleavings of five configurations inside Coq with a proved soundness lemma (checked closed sets, Lib/Explore.v); real-thread oracle runs for call_once and thread-specific storage",
-        text="For 2 and 3 callers (with and without a throwing first attempt) every interleaving prefix, completed to quiescence, is shown inside Coq to give exactly one successful execution, every caller returning "
-             "(the throwing attempt's caller with the exception), final state done, and no helper touching a destroyed runner. Real threads: one success, no overlapping executions, return only after completion, "
+        text="For 2 and 3 callers (with and without throwing attempts) every reachable configuration (all interleavings, no depth bound; theorem call_once_all_interleavings) has at most one successful execution, no caller past the flag before "
+             "that execution completed, and is not stuck; completed to quiescence: exactly one success, every caller returned (the throwing attempt's caller with the exception), final state done. Real threads: one success, no overlapping executions, return only after completion, "
              "exceptions delivered to the right callers; enumerable_thread_specific/combinable: one element per thread, stable addresses, one initialiser call, iteration/combine exactly once (2-130 threads across table doublings).",
         note="PARTIAL: exhaustive per configuration (2-3 callers, with and without throwing attempts), no proof for arbitrary numbers of callers (OInv stated, not proved). The model is not tied step by step to the code; "
              "the thread-specific-storage table is not modelled.",
